@@ -98,6 +98,13 @@ CLAIMS = {
              'always_connect, implied/listed/"*" namespaces, function and class-based handlers; for the asyncio server '
              'every schedule of concurrent terminating causes with suspension in every send and in the handler.',
         ref='5 C04', technique='symbolic execution (CrossHair+z3) over bounded histories; solver-enumerated asyncio schedules'),
+    'C17': dict(
+        text='Symbolic execution of every helper of the four namespace classes against a recorder carrying the '
+             'signatures read from the real Server/Client classes of the current tree: every subset of optional '
+             'arguments, every positional prefix, values incl. solver-chosen falsy ones and explicit falsy namespaces; '
+             'the recorded binding must equal what the caller gave, the registration namespace being the default, and '
+             'the result is passed back unchanged. Exhaustive over that finite space.',
+        ref='5 C17', technique='symbolic execution (CrossHair+z3) of the real delegating methods vs signature-derived expectations'),
 }
 
 PENDING = 'check not built yet in this tree (work in progress); no claim is made'
